@@ -92,6 +92,8 @@ def unit_triangle(nu:int, nv:int, generate_uvs:bool=False) -> SurfaceMesh:
     Returns
         SurfaceMesh: a subdivided unit triangle
     """
+    if nu<2 or nv<2:
+        raise Exception("nu and nv should be >= 2 for a valid triangle. Aborting")
     out = RawMeshData()
     U = np.linspace(0,1,nu)
     V = np.linspace(1,0,nv)
